@@ -121,11 +121,12 @@ CLAIMED = {
          "TLC judges StopCompletesWithoutPanic, StopInBoundedTime, EachSessionRemovedExactlyOnce (no residue, no failed or repeated delete) and the C02/C03 invariants on re-association and on the other associations.",
          "Schedules at the implementation are forced / sampled, not enumerated from the model's graph (edge cover through GEN is future work); bounded stop time is 5 s (20 s under the gating scheduler). " + TRUST,
          "5 C10"),
- "C04": ("TLA+ R-specs Pfcp + Up4Image (image of the live sessions' rules in the UP4 pipeline, agent-chosen IDs existentially bound): TLC judges the state of the harness' own P4Runtime switch after every step of the real agent",
+ "C04": ("TLA+ R-specs Pfcp + Up4Image (image of the live sessions' rules in the UP4 pipeline, agent-chosen IDs existentially bound) + GEN scripts from Up4Script.tla replayed into the agent: TLC judges the state of the harness' own P4Runtime switch after every step of the real agent",
          "The agent process runs with the UP4 plug-in against the harness' P4Runtime server, which serves the shipped P4Info and implements the write semantics of the P4Runtime specification (ALREADY_EXISTS / NOT_FOUND, "
          "per-update results of a batch, wildcard reads, meter and counter cells). Seeded randomised histories (1-3 associations, up to 5 live sessions sharing gNB peers and application filters, sessions with one shared or per-flow TEIDs, "
          "FAR updates buffer <-> forward <-> other gNB, QER gate / QFI updates, PDR updates, flows removed and added, association release, SIGKILL + restart against the populated switch; random slice id, QFI->TC map, default TC; "
-         "a third of the shards with boundary values) are recorded step by step; after every accepted request, every lost association and every start TLC evaluates Up4Image!TablesAreImage "
+         "a third of the shards with boundary values) are recorded step by step; in addition (GEN) TLC generates every script of 4 (thorough: 5) control-plane operations over two sessions that share gNB and application filters "
+         "(spec/Up4Script.tla, 629 / 4 849 scripts) and the harness replays them into the real agent; after every accepted request, every lost association and every start TLC evaluates Up4Image!TablesAreImage "
          "(interfaces, sessions_uplink / sessions_downlink keys and buffer / tunnel-peer action, terminations key and drop / forward action with TEID, QFI and traffic class, one applications entry per distinct filter and one tunnel_peers "
          "entry per distinct GTP peer present iff used, meter cells bounded by the live QERs) and InterfacesThroughout.",
          "Inside the envelope of DESIGN 11.4 (one UE address and one downlink forwarding state per session, distinct application filters per direction, at most one QFI-carrying QER per PDR, closed gates only on that QER), checked as a structural invariant; "
